@@ -25,8 +25,11 @@ slicing selects the rows of columns and highlights with the same index and
 joining stacks both, self before other; headers and units are carried over.
 LEN-ALIGNED - where both are linear in the same symbols the highlight column
 and the data column of a table have equal symbolic length. HL-WRAP - the
-highlight role wraps a cell exactly when its flag is true; rows and
-highlight rows are transposed alike. EXHAUSTIVE - each of the ten result
+highlight role wraps a cell exactly when its flag is true; cells and flags
+are walked by the same traversal. ROW-SELECT - a detailed table that shows
+only the failing bins selects them with the per-bin verdict (oracles(),
+equal ...) that also drives the highlights, not with a criterion
+re-computed from the statistic. EXHAUSTIVE - each of the ten result
 kinds of the property resolves, through the reflective name dispatch, to a
 table_repr representer.
 Not decided: validity of the emitted reStructuredText and read-back of the
@@ -51,6 +54,7 @@ def check(ctx):
     ctx.run(marks.check_row_aligned)
     ctx.run(marks.check_hl_wrap)
     ctx.run(marks.check_len_aligned)
+    ctx.run(marks.check_row_select)
 
 
 def variants(program):
@@ -177,6 +181,34 @@ def variants(program):
     add('representer-renamed', 'mutant', TREPR, renamed_repr,
         {'EXHAUSTIVE', 'DISPATCH'},
         note='the reflective dispatch silently finds nothing')
+
+    def select_by_statistic(tree):
+        fun = find_func(tree, 'repr_student_intermediate')
+        ok = False
+        for idx, stmt in enumerate(fun.body):
+            if isinstance(stmt, ast.For) and 'falses_ind' in txt(stmt):
+                fun.body[idx] = parse_stmts(
+                    'for tstud in result.tstud:\n'
+                    '    falses_ind[np.where(np.fabs(tstud) >= '
+                    'result.test.threshold)] = 0')[0]
+                ok = True
+        return ok
+    add('failing-rows-selected-by-recomputed-criterion', 'mutant', TREPR,
+        select_by_statistic, {'ROW-SELECT'},
+        note='seeded C12-1: a bin with a NaN statistic fails the test but '
+             'is left out of the failing-bins table')
+
+    def flags_raveled(tree):
+        fun = find_func(tree, 'RstTable.format_columns')
+        return replace_first(
+            fun, lambda n: isinstance(n, ast.Call) and txt(n) ==
+            'cls.transpose(highlights)',
+            lambda n: parse_expr('zip(*[np.ravel(high) for high in '
+                                 'highlights])'))
+    add('flags-walked-in-another-order-than-cells', 'mutant', RSTM,
+        flags_raveled, {'HL-WRAP'},
+        note='seeded C12-2: np.nditer walks the cells in memory order, '
+             'ravel walks the flags in C order')
 
     # ---- twins
     def invert_op(tree):
